@@ -1761,7 +1761,7 @@ V("C07", "skip_event_compares_values_for_slots", "fire", "R07.a", (Z, """       
             if what == 'value':""", """        for p, what in subparams:
             if what in ('value', 'bounds'):"""))
 V("C07", "no_callback_below_first_level", "fire", "R07.a", (Z, "        if depth > 0:\n            def callback(*events):", "        if depth > 1:\n            def callback(*events):"))
-V("C07", "param_spec_compares_nothing", "fire", "R07.a", (Z, "            subparams = [sp for sp in list(subobjs[-1].param)]", "            subparams = []"))
+V("C07", "param_spec_compares_nothing", "fire", "R07.a", (Z, "            subparams = ['.'.join(path[:-1] + [sp]) for sp in list(subobjs[-1].param)]", "            subparams = []"))
 V("C07", "old_watchers_unwatched_on_parent", "fire", "R07.b", (Z, "                    (w.cls if w.inst is None else w.inst).param.unwatch(w)", "                    obj.param.unwatch(w)"))
 V("C07", "old_watchers_stay_recorded", "fire", "R07.b", (Z, "                for w in obj._param__private.dynamic_watchers.pop(method, []):", "                for w in obj._param__private.dynamic_watchers.get(method, []):"))
 V("C07", "new_watchers_not_recorded", "fire", "R07.b", (Z, """                watcher = self_._watch_group(obj, method, queued, group, attribute)
@@ -1794,3 +1794,13 @@ V("C07", "benign_skip_event_membership_test", "benign", None, (Z, """           
                 return False"""))
 V("C07", "benign_path_split_strips_slot_first", "benign", None, (Z, "        for subpath in dynamic_dep.spec.split('.')[:-1]:", "        for subpath in dynamic_dep.spec.split(':')[0].split('.')[:-1]:"))
 V("C07", "benign_callback_first_not_none", "benign", None, (Z, "            callback = callback or cb\n", "            if callback is None:\n                callback = cb\n"))
+V("C06", "diamond_takes_entry_an_ancestor_inherited", "fire", "R06.a", (Z, """                if dep[0] not in cls.__dict__:
+                    continue
+""", ""))
+V("C07", "rebind_reinstalls_only_the_changed_root", "fire", "R07.b", (Z, """            for ddep in dynamic:
+                for dep in _resolve_mcs_deps(obj, [], [ddep]):""", """            for ddep in affected:
+                for dep in _resolve_mcs_deps(obj, [], [ddep]):"""))
+V("C07", "param_spec_below_first_level_compares_namespaces", "fire", "R07.a", (Z, "            subparams = ['.'.join(path[:-1] + [sp]) for sp in list(subobjs[-1].param)]", "            subparams = ['.'.join(path)] if len(path) > 1 else [sp for sp in list(subobjs[-1].param)]"))
+V("C07", "benign_rebind_pops_only_when_affected_nonempty", "benign", None, (Z, """            elif affected:
+                # All dynamic watchers""", """            elif len(affected) > 0:
+                # All dynamic watchers"""))
